@@ -984,6 +984,77 @@ impl<'a> BodyGen<'a> {
         out
     }
 
+    /// Flat body for the `srcvm` / `tgtvm` cases (the machines of Lean `Model/BodySem.lean` against the real VM):
+    /// a few locals declared WITH initialiser at the top (no jump can skip a declaration, so no local is read
+    /// before it was written), then labels, `if|unless (c) goto L [@ t]`, `goto L [@ t]`, counting jumps (also
+    /// the backward counting loop), assignments, calls and relative time labels; no nested blocks.
+    pub fn flat_jump_body(&mut self, n: usize) -> Vec<Sexp> {
+        let mut out = vec![];
+        for _ in 0..self.rng.below(3) {
+            let fl = self.rng.chance(1, 3);
+            let name = self.fresh_local();
+            let e = self.expr(fl, 1);
+            out.push(Sexp::app("decl", vec![Sexp::atom(if fl { "f" } else { "i" }), Sexp::atom(name.clone()), e]));
+            self.scope.last_mut().unwrap().push((name, fl));
+        }
+        let nlabels = 1 + self.rng.below(3);
+        let labels: Vec<String> = (0..nlabels).map(|_| self.fresh_label()).collect();
+        let mut pending: Vec<String> = labels.clone();
+        self.rng.shuffle(&mut pending);
+        let total = n + nlabels;
+        for k in 0..total {
+            let left = total - k;
+            if !pending.is_empty() && (self.rng.below(left) < pending.len()) {
+                let l = pending.pop().unwrap();
+                out.push(Sexp::app("label", vec![Sexp::atom(l)]));
+                continue;
+            }
+            let l = self.rng.pick(&labels).clone();
+            let time = if self.rng.chance(1, 4) { Some(Sexp::int(self.rng.range(0, 40))) } else { None };
+            match self.rng.below(14) {
+                0..=3 => {
+                    let kw = if self.rng.chance(3, 5) { "if" } else { "unless" };
+                    let d = 1 + self.rng.below(2) as u32;
+                    let c = self.jump_cond(d);
+                    let mut v = vec![Sexp::atom(kw), c, Sexp::atom(l)];
+                    if let Some(t) = time { v.push(t); }
+                    out.push(Sexp::app("ifgoto", v));
+                },
+                4 => {
+                    let kw = if self.rng.chance(2, 3) { "if" } else { "unless" };
+                    let c = self.predec_cond();
+                    let mut v = vec![Sexp::atom(kw), c, Sexp::atom(l)];
+                    if let Some(t) = time { v.push(t); }
+                    out.push(Sexp::app("ifgoto", v));
+                },
+                5 => { let mut v = vec![Sexp::atom(l)]; if let Some(t) = time { v.push(t); } out.push(Sexp::app("goto", v)); },
+                6 => {
+                    // backward counting loop over its own label: `x = k; lab: ..; if (--x) goto lab [@ t];`
+                    let lab = self.fresh_label();
+                    let var = self.assignable(false);
+                    let key = match var.head() { Some("reg") => format!("r{}", var.args()[0]), _ => format!("l{}", var.args()[0]) };
+                    out.push(Sexp::app("asg", vec![Sexp::atom("set"), var.clone(), Sexp::app("i", vec![Sexp::int(self.rng.range(1, 4))])]));
+                    out.push(Sexp::app("label", vec![Sexp::atom(lab.clone())]));
+                    self.frozen.push(Sexp::atom(key));
+                    let m = 1 + self.rng.below(2);
+                    for _ in 0..m { if self.rng.chance(1, 3) { out.push(Sexp::app("wait", vec![Sexp::int(self.rng.range(1, 9))])); } let mut tmp = vec![]; self.simple_stmt(&mut tmp); out.extend(tmp); }
+                    self.frozen.pop();
+                    let pre = Sexp::app("predec", vec![var]);
+                    let want_gt = if self.predec_gt && self.predec_ne { self.rng.chance(1, 2) } else { self.predec_gt };
+                    let c = if want_gt { Sexp::app("bin", vec![Sexp::atom("gt"), pre, Sexp::app("i", vec![Sexp::int(0)])]) } else if self.rng.chance(1, 2) { pre } else { Sexp::app("bin", vec![Sexp::atom("ne"), pre, Sexp::app("i", vec![Sexp::int(0)])]) };
+                    let mut v = vec![Sexp::atom("if"), c, Sexp::atom(lab)];
+                    if let Some(t) = time { v.push(t); }
+                    out.push(Sexp::app("ifgoto", v));
+                },
+                7 | 8 => out.push(Sexp::app("wait", vec![Sexp::int(self.rng.range(1, 20))])),
+                _ => { let mut tmp = vec![]; self.simple_stmt(&mut tmp); out.extend(tmp); },
+            }
+        }
+        while let Some(l) = pending.pop() { out.push(Sexp::app("label", vec![Sexp::atom(l)])); }
+        if self.rng.chance(1, 80) { out.push(Sexp::app("goto", vec![Sexp::atom("lab999")])); }
+        out
+    }
+
     pub fn body(&mut self, n: usize, depth: u32) -> Vec<Sexp> {
         let mut out = vec![];
         for _ in 0..n { self.stmt(depth, &mut out); }
